@@ -14,13 +14,18 @@ TRUSTED = ["hand model coq/Model/SbmlExport.v (mass-action rate expressions) tie
            "libsbml (XML layer, L3 formula parser) is outside the model; the harness evaluates libsbml's AST independently"]
 ASSUMPTIONS = ["Hill kinetic laws are a known finding (F8): the frozen-file tests pin the wrong strings", "relative tolerance 1e-9"]
 
+NESTED_POOL = ["P", "P2", "P3", "X", "X_m", "S1", "S10", "P2b"]
+
 def gen_cases(seed, tier):
     rng = random.Random(seed * 5003 + 14); n = 120 if tier == "quick" else 1500
     cases = []
     for _ in range(n):
         spec = G.gen_network(rng, kinds=("massaction", "massaction", "massaction") + tuple(G.HILL) + ("general",), nrx=(1, 4), nsp=(1, 4), max_order=rng.choice([2, 3, 5]),
                              general_pool=["kg*%s", "kg*%s*%s", "kg*%s/(1+%s)", "kg*%s^2/(Kg+%s^2)", "kg*exp(-%s/Kg)",
-                                           "kg*exp(-%s^2/Kg)", "kg*1.1^%s^0.5", "kg*(2 - -%s^2/(1+%s^2))"])   # unary minus on a power, power towers: grammar-sensitive (S3_C14)
+                                           "kg*exp(-%s^2/Kg)", "kg*1.1^%s^0.5", "kg*(2 - -%s^2/(1+%s^2))"],   # unary minus on a power, power towers: grammar-sensitive (S3_C14)
+                             # a third of the models use species names that contain one another (P / P2 / P3, X / X_m, S1 / S10), as
+                             # oligomer and mRNA models do (seeded change S6_C14: a reactant's order counted as a substring count)
+                             species_pool=(NESTED_POOL if rng.random() < 0.35 else None))
         if rng.random() < 0.4: _plain_names(rng, spec)
         pts = [{s: float(rng.randint(0, 7)) for s in spec["x0"]} for _ in range(4)]
         cases.append({"spec": spec, "points": pts})
